@@ -79,13 +79,8 @@ func verifC20Publish() {
 			val = `alpn="h2" ech="T0xE" port=8443`
 		}
 		for j := 0; j < np; j++ {
-			p := vParam(!hasEch, j == 0 || vTier() > 0)
-			if vIsEch(p) {
-				if hasEch {
-					vAssume(false) // stated precondition: at most one ech entry
-				}
-				hasEch = true
-			}
+			p := vParam(true, j == 0 || vTier() > 0)
+			_ = hasEch // (several ech entries may occur: "arbitrary parameter strings")
 			if j > 0 {
 				val += " "
 			}
@@ -168,17 +163,22 @@ func verifC20Publish() {
 			toks := vSplit(rec.value)
 			var keep []string
 			old := ""
+			nOld := 0
 			for _, t := range toks {
 				if vIsEch(t) {
 					old = t[4:]
-					if len(old) >= 2 && old[0] == '"' && old[len(old)-1] == '"' {
-						old = old[1 : len(old)-1]
+					for len(old) > 0 && old[0] == '"' {
+						old = old[1:]
 					}
+					for len(old) > 0 && old[len(old)-1] == '"' {
+						old = old[:len(old)-1]
+					}
+					nOld++
 					continue
 				}
 				keep = append(keep, t)
 			}
-			if old == want64 {
+			if nOld == 1 && old == want64 {
 				vAssert(res.Code == StatusNoChange, "published value already current: no change")
 				continue
 			}
